@@ -78,6 +78,22 @@ def run(tier):
                                 {"system": text, "mode": mode})
             if res["reached"] != res["nodes"] and not res["diags"]:
                 raise MachineryError(f"{text}: {res['nodes'] - res['reached']} tree nodes not reached without a diagnostic")
+    # design level: every behaviour of the ensemble machine for the small systems (EnsembleMC)
+    mc_states = 0
+    mc_runs = []
+    for spec in systems(tier)[: (6 if tier == "quick" else 11)]:
+        if spec.name == "open-member":
+            continue            # its machine ends in "error" by design (a member that cannot be completed)
+        r = E.model_check(spec)
+        if not r.ok:
+            inv = r.invariant_violated()
+            if inv:
+                v.violation(f"C13:model:{inv}@{spec.name}", f"the ensemble specification violates {inv} on {spec.text()}\n{r.tail(12)}", {"system": spec.text()})
+                continue
+            print(r.tail(30))
+            raise MachineryError(f"TLC failed on EnsembleMC for {spec.name}")
+        mc_states += r.distinct
+        mc_runs.append({"system": spec.text(), "distinct_states": r.distinct, "depth": r.depth})
     # systems that are not generable must refuse on both entry points
     refusals = 0
     for text, smw in (("CCO.|30%|CCC.|70%|", None), ("CCO.|30%|CCC", None), ("CC.|40%|O{[$][$]CC[$][$]}N", 150), ("CCO.|10%|CCC.|100|CCCC.|100|", None),
@@ -98,7 +114,8 @@ def run(tier):
                     break
                 except Exception:
                     pass
-    v.coverage = {"states": tot_states, "transitions": tot_states, "traces_validated_against_impl": tot_paths,
+    v.coverage = {"states": tot_states + mc_states, "transitions": tot_states + mc_states, "model_checking": {"distinct_states": mc_states, "runs": mc_runs,
+                  "properties": ["IStop", "IAccounted", "OnlyCompleteMembers", "AccumulatesMemberMass", "Termination (WF)"]}, "traces_validated_against_impl": tot_paths,
                   "tree_nodes_validated": tot_nodes, "systems": len(systems(tier)), "non_generable_systems_tried": refusals, "samples": samples}
     v.assumptions = ["System.generator is a property whose generator argument cannot be passed normally: the harness calls type(system).generator.fget(system, rng)",
                      "a member is 'an instance of a declared component' iff its recorded generation is a behaviour of that component's generation machine and the yielded molecule equals the machine's result"]
